@@ -48,13 +48,13 @@ type Property struct {
 // expectedProbes are the rare conditions a check wants to have reached; they start at 0 so that a
 // probe that never fires is visible in the evidence (probes_at_zero).
 var expectedProbes = map[string][]string{
-	"C01": {"program.nesting_depth_3", "program.jump_inside_nested_body", "program.options_end_a_body", "world.nodes_over_several_readers", "world.command_polled_while_pending", "world.hub_loop"},
+	"C01": {"program.nesting_depth_3", "program.jump_inside_nested_body", "program.options_end_a_body", "world.nodes_over_several_readers", "world.command_polled_while_pending", "world.hub_loop", "program.block_chain_6_to_12_deep"},
 	"C03": {"world_with_failing_statement", "world_with_host_write"},
 	"C06": {"fault_requiring_error", "fault_with_open_outcome"},
 	"C07": {"receiver.FRESH", "receiver.READY", "receiver.CHOOSING", "receiver.PENDING", "receiver.ENDED", "receiver.sibling_path", "receiver.restored_before", "two_receivers_of_one_snapshot"},
 	"C10": {"shape.raw_prefilled", "shape.raw_buffered", "shape.raw_unbuffered", "shape.conv_none", "shape.conv_error", "shape.conv_chan", "shape.conv_rochan", "wait_polled_one_tick_before_deadline", "command_error_surfaced"},
 	"C11": {"node_left_three_times", "untracked_node_visited", "restore_then_jump"},
-	"C12": {"ended_by_stop_or_node_end", "end_with_statements_still_queued", "post_end_call_with_out_of_range_argument"},
+	"C12": {"ended_by_stop_or_node_end", "end_with_statements_still_queued", "post_end_call_with_out_of_range_argument", "stop_inside_block_chain_6_to_12_deep"},
 	"C14": {"history_with_failed_parse_in_the_middle"},
 	"C18": {"burst_inside_storer_read", "burst_inside_host_function", "burst_inside_command_handler", "runner_created_between_steps_of_another"},
 	"C20": {"queue_grew_while_wrapped", "queue_grew_while_wrapped_twice", "stream_with_more_than_8_indents"},
@@ -251,6 +251,9 @@ func TestSim(t *testing.T) {
 	}
 
 	finish := func() {
+		if leakedWorlds > 0 {
+			env.St.Counters["worlds_with_a_goroutine_of_the_code_under_test_left_blocked"] = leakedWorlds
+		}
 		res.Worlds = env.St.Counters["worlds"]
 		res.Counters = env.St.Counters
 		res.Samples = env.St.Samples
